@@ -10,7 +10,9 @@ package app
 
 import (
 	"fmt"
+	"io/ioutil"
 	"math/big"
+	"os"
 	"testing"
 
 	"github.com/lianxiangcloud/linkchain/blockchain"
@@ -32,18 +34,22 @@ type c07Mempool struct {
 	cache map[common.Hash]types.Tx
 }
 
-func (m *c07Mempool) Reap(int) types.Txs                  { return m.txs }
-func (*c07Mempool) Update(uint64, types.Txs) error        { return nil }
+func (m *c07Mempool) Reap(int) types.Txs                    { return m.txs }
+func (*c07Mempool) Update(uint64, types.Txs) error          { return nil }
 func (m *c07Mempool) GetTxFromCache(h common.Hash) types.Tx { return m.cache[h] }
-func (*c07Mempool) Lock()                                 {}
-func (*c07Mempool) Unlock()                               {}
-func (*c07Mempool) KeyImageExists(lctypes.Key) bool       { return false }
-func (*c07Mempool) KeyImagePush(lctypes.Key) bool         { return true }
-func (*c07Mempool) KeyImageRemoveKeys([]*lctypes.Key)     {}
-func (*c07Mempool) KeyImageReset()                        {}
-
+func (*c07Mempool) Lock()                                   {}
+func (*c07Mempool) Unlock()                                 {}
+func (*c07Mempool) KeyImageExists(lctypes.Key) bool         { return false }
+func (*c07Mempool) KeyImagePush(lctypes.Key) bool           { return true }
+func (*c07Mempool) KeyImageRemoveKeys([]*lctypes.Key)       {}
+func (*c07Mempool) KeyImageReset()                          {}
 
 func TestBoundedC07Replay(t *testing.T) {
+	// the flat state keeps an undo log file in the working directory: work in a scratch directory, not in /repo
+	if dir, err := ioutil.TempDir("", "verifbounded"); err == nil {
+		defer os.RemoveAll(dir)
+		os.Chdir(dir)
+	}
 	sk := crypto.GenPrivKeySecp256k1()
 	metrics.PrometheusMetricInstance.Init(config.DefaultConfig(), sk.PubKey(), log.NewNopLogger())
 	metrics.PrometheusMetricInstance.SetCurrentProposerPubkey(sk.PubKey())
